@@ -46,6 +46,7 @@ var c17Spec = &c17Node{kind: c17Container, presence: true, children: []*c17Node{
 		{kind: c17Leaf, name: "x", typ: c17Str},     // choice ch / case ca / leaf x
 		{kind: c17LeafList, name: "m", typ: c17Uint}, // choice ch / case cb / leaf-list m
 		{kind: c17Leaf, name: "y", typ: c17Uint},     // choice ch / case cb / choice inner / case ci / leaf y
+		{kind: c17Leaf, name: "g", typ: c17Str}, // a leaf whose type carries the default "q"
 		// non-presence containers that carry defaults (they "always exist", but a path
 		// ending on them is still incomplete)
 		{kind: c17Container, name: "d", children: []*c17Node{
@@ -85,7 +86,7 @@ func buildC17Schema() Tree {
 	}
 	f, _ := NewContainer("f", ns, mod, "", "", "", false, true, Current, nil, nil, []Node{dleafDef("w")})
 	d, _ := NewContainer("d", ns, mod, "", "", "", false, true, Current, nil, nil, []Node{dleafDef("z"), f})
-	c, _ := NewContainer("c", ns, mod, "", "", "", false, true, Current, nil, nil, []Node{leaf("n", u), p, leaf("e", e), ch, d})
+	c, _ := NewContainer("c", ns, mod, "", "", "", false, true, Current, nil, nil, []Node{leaf("n", u), p, leaf("e", e), ch, dleafDef("g"), d})
 	l, _ := NewList("l", ns, mod, "", "", "", "", 0, ^uint(0), true, Current, []string{"k"}, nil, nil, nil, []Node{leaf("k", u), leaf("v", s)})
 	t, err := NewTree([]Node{c, l})
 	if err != nil {
